@@ -1,39 +1,105 @@
-(* C06 - the programs that refuted the property on the code before the fixes (Pinned.v), run on the
-   current Mech: transcript as the Spec demands, stacks balanced. *)
+(* C06 - concrete runs (vm_compute): the programs that refuted the property on the code before the fixes
+   (Pinned.v) on the current Mech; programs that re-use variable names across frames (conforming); and
+   the programs on which the name-keyed bookkeeping of the CURRENT code loses an object (findings). *)
 From Coq Require Import List Arith Bool.
 Import ListNotations.
 From Cb Require Import C06.Model C06.Pinned.
 
-Lemma w11_now : mrun 20 w11 = Some (true, mk [] [[]] 1
-  [ECtor 100; EMark 1; ECtor 1; EDtor 1; EMark 2; EDtor 100]).
+Lemma w11_now : mrun 20 w11 0 = Some (true, mk [] [[]] [[]]
+  [ECtor TR 90; EMark 1; ECtor TR 1; EDtor TR 1; EMark 2; EDtor TR 90]).
 Proof. vm_compute; reflexivity. Qed.
 
-Lemma w43_now : mrun 20 w43 = Some (true, mk [] [[]] 1
-  [ECtor 1; EReg 1; EReg 2; ECtor 3; EDefer 2; EDefer 1; EDtor 3; EDtor 1]).
+Lemma w43_now : mrun 20 w43 0 = Some (true, mk [] [[]] [[]]
+  [ECtor TR 1; EReg 1; EReg 2; ECtor TR 3; EDefer 2; EDefer 1; EDtor TR 3; EDtor TR 1]).
 Proof. vm_compute; reflexivity. Qed.
 
-Lemma w44_now : mrun 30 w44 = Some (true, mk [] [[]] 1
+Lemma w44_now : mrun 30 w44 0 = Some (true, mk [] [[]] [[]]
   [EReg 1; EReg 2; EMark 3; EDefer 2; EMark 4; EDefer 1]).
 Proof. vm_compute; reflexivity. Qed.
 
-Lemma wnever_now : mrun 20 wnever = Some (true, mk [] [[]] 1
-  [ECtor 1; ECtor 9; EDtor 9; ECtor 9; EDtor 9; ECtor 2; EDtor 2; EDtor 1]).
+Lemma wnever_now : mrun 20 wnever 0 = Some (true, mk [] [[]] [[]]
+  [ECtor TR 1; ECtor TR 9; EDtor TR 9; ECtor TR 9; EDtor TR 9; ECtor TR 2; EDtor TR 2; EDtor TR 1]).
 Proof. vm_compute; reflexivity. Qed.
 
-Lemma wmain_now : mrun 20 wmain = Some (true, mk [] [[]] 1 [ECtor 1; EDtor 1]).
+Lemma wmain_now : mrun 20 wmain 0 = Some (true, mk [] [[]] [[]] [ECtor TR 1; EDtor TR 1]).
 Proof. vm_compute; reflexivity. Qed.
 
 (* every construct, including the three formerly defective shapes: a scope with objects and defers,
    a return after an object, a return from inside a loop *)
 Definition wall : prog :=
-  [blk [SObj 1; SDefer 2; SLoop 3 (blk [SDefer 3; SObj 4; SIf (CIter 1) (blk [SBrk]) (blk [SMark 5]); SCall 1]); SCall 2; SMark 6];
-   blk [SObj 7; SBlock (blk [SDefer 8; SObj 9; SRet]); SMark 10];
-   blk [SDefer 11; SLoop 2 (blk [SObj 12; SIf (CIter 0) (blk [SDefer 13; SRet]) BNil]); SMark 14]].
+  [blk [SObj 1 TR 1; SDefer 2; SLoop 3 (blk [SDefer 3; SObj 4 TQ 4; SIf (CIter 1) (blk [SBrk]) (blk [SMark 5]); SCall 1]); SCall 2; SMark 6];
+   blk [SObj 7 TR 7; SBlock (blk [SDefer 8; SObj 9 TR 9; SRet]); SMark 10];
+   blk [SDefer 11; SLoop 2 (blk [SObj 12 TR 12; SIf (CIter 0) (blk [SDefer 13; SRet]) BNil]); SMark 14]].
 
-Lemma wall_run : mrun 40 wall = Some (true, mk [] [[]] 1
-  [ECtor 1; EReg 2;
-   EReg 3; ECtor 4; EMark 5; ECtor 7; EReg 8; ECtor 9; EDefer 8; EDtor 9; EDtor 7; EDefer 3; EDtor 4;
-   EReg 3; ECtor 4; EDefer 3; EDtor 4;
-   EReg 11; ECtor 12; EReg 13; EDefer 13; EDtor 12; EDefer 11;
-   EMark 6; EDefer 2; EDtor 1]).
+Lemma wall_wf : wf_prog wall = true.
 Proof. vm_compute; reflexivity. Qed.
+
+Lemma wall_run : mrun 40 wall 0 = Some (true, mk [] [[]] [[]]
+  [ECtor TR 1; EReg 2;
+   EReg 3; ECtor TQ 4; EMark 5; ECtor TR 7; EReg 8; ECtor TR 9; EDefer 8; EDtor TR 9; EDtor TR 7; EDefer 3; EDtor TQ 4;
+   EReg 3; ECtor TQ 4; EDefer 3; EDtor TQ 4;
+   EReg 11; ECtor TR 12; EReg 13; EDefer 13; EDtor TR 12; EDefer 11;
+   EMark 6; EDefer 2; EDtor TR 1]).
+Proof. vm_compute; reflexivity. Qed.
+
+(* ONE variable name (x0) everywhere: live at once in main, in its callee f1 and in all three levels of the
+   recursion of f1 (same struct type R), as a Q object of the same name in f2 called from inside the
+   recursion, in sibling blocks and in successive loop iterations; a defer per activation.  wf_prog holds:
+   no body re-declares a name that is live in the same activation. *)
+Definition wnames : prog :=
+  [blk [SObj 0 TR 1; SDefer 2; SCall 1; SMark 3];
+   blk [SObj 0 TR 4; SDefer 5; SIf CDepth (blk [SCall 1]) (blk [SCall 2]); SMark 6];
+   blk [SBlock (blk [SObj 0 TQ 7]); SBlock (blk [SObj 0 TR 8]); SLoop 2 (blk [SObj 0 TQ 9])]].
+
+Lemma wnames_wf : wf_prog wnames = true.
+Proof. vm_compute; reflexivity. Qed.
+
+Lemma wnames_run : mrun 60 wnames 2 = Some (true, mk [] [[]] [[]]
+  [ECtor TR 201; EReg 202;
+     ECtor TR 104; EReg 105;
+       ECtor TR 4; EReg 5;
+         ECtor TQ 7; EDtor TQ 7; ECtor TR 8; EDtor TR 8; ECtor TQ 9; EDtor TQ 9; ECtor TQ 9; EDtor TQ 9;
+       EMark 6; EDefer 5; EDtor TR 4;
+     EMark 6; EDefer 105; EDtor TR 104;
+   EMark 3; EDefer 202; EDtor TR 201]).
+Proof. vm_compute; reflexivity. Qed.
+
+(* ---- findings on the current code: a declaration that re-uses a name which is still live in the SAME
+   activation overwrites the variable slot (blocks open no variable scope); the older object is then
+   skipped by the destructor_called guard and never destroyed *)
+(* R x0(1); { R x0(2); mark 1 } mark 2 *)
+Definition wshadow : prog := [blk [SObj 0 TR 1; SBlock (blk [SObj 0 TR 2; SMark 1]); SMark 2]].
+(* R x0(1); { Q x0(2); mark 1 } mark 2 *)
+Definition wshadowq : prog := [blk [SObj 0 TR 1; SBlock (blk [SObj 0 TQ 2; SMark 1]); SMark 2]].
+(* R x0(1); R x0(2); *)
+Definition wredecl : prog := [blk [SObj 0 TR 1; SObj 0 TR 2]].
+(* for (2) { W x0(1); }  - the member flag survives the re-declaration *)
+Definition wmember : prog := [blk [SLoop 2 (blk [SObj 0 TW 1])]].
+(* W objects outside loops, one per activation: fine *)
+Definition wmember_ok : prog := [blk [SObj 0 TW 1; SCall 1; SMark 1]; blk [SObj 0 TW 2; SIf CDepth (blk [SCall 1]) BNil]].
+
+Lemma wshadow_run :
+  mrun 20 wshadow 0 = Some (true, mk [] [[]] [[]] [ECtor TR 1; ECtor TR 2; EMark 1; EDtor TR 2; EMark 2]) /\
+  srun 20 wshadow 0 = Some (true, [ECtor TR 1; ECtor TR 2; EMark 1; EDtor TR 2; EMark 2; EDtor TR 1]).
+Proof. split; vm_compute; reflexivity. Qed.
+
+Lemma wshadowq_run :
+  mrun 20 wshadowq 0 = Some (true, mk [] [[]] [[]] [ECtor TR 1; ECtor TQ 2; EMark 1; EDtor TQ 2; EMark 2]) /\
+  srun 20 wshadowq 0 = Some (true, [ECtor TR 1; ECtor TQ 2; EMark 1; EDtor TQ 2; EMark 2; EDtor TR 1]).
+Proof. split; vm_compute; reflexivity. Qed.
+
+Lemma wredecl_run :
+  mrun 20 wredecl 0 = Some (true, mk [] [[]] [[]] [ECtor TR 1; ECtor TR 2; EDtor TR 2]) /\
+  srun 20 wredecl 0 = Some (true, [ECtor TR 1; ECtor TR 2; EDtor TR 2; EDtor TR 1]).
+Proof. split; vm_compute; reflexivity. Qed.
+
+Lemma wmember_run :
+  mrun 20 wmember 0 = Some (true, mk [] [[]] [[]]
+     [ECtor TR 51; ECtor TW 1; EDtor TW 1; EDtor TR 51; ECtor TR 51; ECtor TW 1; EDtor TW 1]) /\
+  srun 20 wmember 0 = Some (true,
+     [ECtor TR 51; ECtor TW 1; EDtor TW 1; EDtor TR 51; ECtor TR 51; ECtor TW 1; EDtor TW 1; EDtor TR 51]).
+Proof. split; vm_compute; reflexivity. Qed.
+
+Lemma wmember_ok_run : exists st, mrun 30 wmember_ok 1 = Some (true, st) /\ srun 30 wmember_ok 1 = Some (true, tr st) /\
+  tr st = [ECtor TR 151; ECtor TW 101; ECtor TR 52; ECtor TW 2; EDtor TW 2; EDtor TR 52; EMark 1; EDtor TW 101; EDtor TR 151].
+Proof. eexists; split; [vm_compute; reflexivity|]. split; vm_compute; reflexivity. Qed.
